@@ -711,8 +711,20 @@ fn write_block(
             items.insert(0, (16, rng.below(4) as u32));
         }
         if poison == Spec::RunOverflow {
-            // lengthen the final item into a run that overruns the table
-            items.push((18, rng.range(0, 127) as u32));
+            // replace the final item by a zero-run that overruns HLIT + HDIST
+            let covered = match items.pop() {
+                Some((16, e)) | Some((17, e)) => 3 + e as usize,
+                Some((18, e)) => 11 + e as usize,
+                Some(_) => 1,
+                None => 0,
+            };
+            let want = (covered + 1 + rng.range(0, 20)).max(11);
+            if want <= 138 {
+                items.push((18, (want - 11) as u32));
+            } else {
+                items.push((18, 127));
+                items.push((17, rng.range(0, 7) as u32));
+            }
         }
         let mut cl_used = vec![false; 19];
         for &(s, _) in &items {
